@@ -61,11 +61,30 @@ fn valid<'a>() -> impl Parser<'a, &'a str, Out, Ex<'a>> + Clone + Send + Sync {
     item.separated_by(just(' ')).at_least(1).collect::<Vec<i64>>().then_ignore(just(';'))
 }
 
+/// A bit of everything that has no user callback inside: sequences of literals, one_of / none_of,
+/// keywords and identifiers, separated lists, look-ahead, labels, choice with error merging, recovery.
+fn mix<'a>() -> impl Parser<'a, &'a str, Out, Ex<'a>> + Clone + Send + Sync {
+    let kw = text::ascii::keyword("let").to(1i64).or(text::ascii::keyword("fn").to(2));
+    let name = text::ascii::ident().and_is(text::ascii::keyword("let").not()).to(3i64).labelled("name");
+    let lit = just("ab").or(just("ac")).or(just("abc")).to(4i64);
+    let num = one_of("0123456789").repeated().at_least(1).at_most(4).count().map(|n| 10 + n as i64);
+    let item = choice((kw, lit, name, num)).padded();
+    let list = item
+        .clone()
+        .separated_by(just(',').padded())
+        .allow_trailing()
+        .collect::<Vec<i64>>()
+        .delimited_by(just('('), just(')'))
+        .recover_with(skip_until(none_of(")").ignored(), just(')').ignored(), Vec::new));
+    list.or(item.repeated().at_least(1).collect::<Vec<i64>>())
+}
+
 fn make<'a>(z: usize) -> Shared<'a> {
     match z {
         0 => Arc::new(memo()),
         1 => Arc::new(pratt()),
-        _ => Arc::new(valid()),
+        2 => Arc::new(valid()),
+        _ => Arc::new(mix()),
     }
 }
 
@@ -79,16 +98,24 @@ impl<const Z: usize> Cached for C<Z> {
 static C0: LazyLock<Cache<C<0>>> = LazyLock::new(|| Cache::new(C::<0>));
 static C1: LazyLock<Cache<C<1>>> = LazyLock::new(|| Cache::new(C::<1>));
 static C2: LazyLock<Cache<C<2>>> = LazyLock::new(|| Cache::new(C::<2>));
+static C3: LazyLock<Cache<C<3>>> = LazyLock::new(|| Cache::new(C::<3>));
 
 fn cached<'a>(z: usize) -> &'a Shared<'a> {
     match z {
         0 => C0.get(),
         1 => C1.get(),
-        _ => C2.get(),
+        2 => C2.get(),
+        _ => C3.get(),
     }
 }
 
-const POOLS: [&[&str]; 3] = [&["aabx", "aay", "bcz", "aabz", "ay"], &["1+2*3", "-1^2!", "2 * (3", "4!+5"], &["1 2 3;", "1 300 2;", "1 x 2;", "1 2"]];
+const NZ: usize = 4;
+const POOLS: [&[&str]; NZ] = [
+    &["aabx", "aay", "bcz", "aabz", "ay"],
+    &["1+2*3", "-1^2!", "2 * (3", "4!+5"],
+    &["1 2 3;", "1 300 2;", "1 x 2;", "1 2"],
+    &["(let, ab, x1)", "fn abc 12", "(ac, 12345, )", "(let ; ab)", "lettuce ab"],
+];
 
 fn show<'a>(p: &Shared<'a>, s: &'a str, check: bool) -> String {
     if check {
@@ -104,11 +131,11 @@ fn main() {
     let mut ops = 0u64;
     // sequential references from brand-new parsers
     let mut refs: Vec<Vec<(String, String)>> = Vec::new();
-    for z in 0..3 {
+    for z in 0..NZ {
         refs.push(POOLS[z].iter().map(|s| (show(&make(z), s, false), show(&make(z), s, true))).collect());
     }
     let refs = Arc::new(refs);
-    for z in 0..3 {
+    for z in 0..NZ {
         let shared: Shared<'static> = make(z);
         let hs: Vec<_> = (0..threads)
             .map(|t| {
